@@ -1,6 +1,7 @@
 (* C16 - Ufs names and metadata mirror the exported tree.
    Property theorems only (each closed by [exact] of a lemma proved elsewhere, followed by Print Assumptions). *)
 From Coq Require Import NArith List Bool.
+From V9 Require Shape.ShapeLib Shape.PUfs16.
 From V9 Require Import Lib.GoSem Lib.Bytes Gen.Consts Ufs.Path Ufs.Handlers Ufs.UfsProofs.
 Import ListNotations.
 Local Open Scope N_scope.
@@ -54,3 +55,10 @@ Example C16_nonvacuous :
   fst (ufs_walk ex [[114]] [[114]] [[97];[98]]) = WOk 2 (Some [[114];[97];[98]]) /\
   fst (ufs_walk ex [[114]] [[114]] [[122]]) = WErr.
 Proof. vm_compute. repeat split. Qed.
+
+
+(* ---- a modelling assumption about the shape of the CURRENT source (Gen/Shape.v), re-checked on every run ---- *)
+(* walk looks at every element with Lstat; Stat refreshes the metadata before it answers *)
+Theorem C16_source_looks_at_the_tree : ShapeLib.ufs_looks_at_the_tree = true.
+Proof. exact PUfs16.ufs_looks_at_the_tree_ok. Qed.
+Print Assumptions C16_source_looks_at_the_tree.
